@@ -486,7 +486,10 @@ impl Property for C20 {
                     }
                     let manifest = ImageManifestBuilder::default().schema_version(2_u32).config(config).layers(layer_list).build()?;
                     let _ = layout.build(manifest)?;
-                    let mut a = Artifact::from_oci_archive(&path)?;
+                    // (an implementation that refuses such an image already when it is opened has reported the error too)
+                    let Ok(mut a) = Artifact::from_oci_archive(&path) else {
+                        return Ok(vec![]);
+                    };
                     let mut accepted = vec![];
                     if a.get_manifest().is_ok() {
                         accepted.push("get_manifest");
@@ -509,10 +512,14 @@ impl Property for C20 {
                 let mut b = ocipkg::image::OciArtifactBuilder::new(archive, MediaType::Other("application/vnd.example.something".to_string()))?;
                 b.add_layer(MediaType::Other("application/octet-stream".to_string()), b"hello", HashMap::new())?;
                 let built = b.build()?;
-                let mut a = Artifact::new(built)?;
-                let ok1 = a.get_manifest().is_ok();
-                drop(a);
-                let mut a2 = Artifact::from_oci_archive(&path)?;
+                let ok1 = match Artifact::new(built) {
+                    Ok(mut a) => a.get_manifest().is_ok(),
+                    Err(_) => false,
+                };
+                // (an implementation that refuses such an image already when it is opened has reported the error too)
+                let Ok(mut a2) = Artifact::from_oci_archive(&path) else {
+                    return Ok(ok1);
+                };
                 let ok2 = a2.get_manifest().is_ok();
                 // ... also when other requests were served from the same handle before (whatever they answered):
                 // by-digest lookups that find nothing, a lookup of the one stored layer, the list accessors
